@@ -383,6 +383,15 @@ of_status_t	of_2d_parity_set_available_symbols (of_2d_parity_cb_t*	ofcb,
 		{
 			ofcb->encoding_symbols_tab[i] = of_calloc (1, ofcb->encoding_symbol_length);
 			memcpy (ofcb->encoding_symbols_tab[i], encoding_symbols_tab[i], ofcb->encoding_symbol_length);
+			/* ML decoding derives the number of unknown repair symbols from these counters */
+			if (i < ofcb->nb_source_symbols)
+			{
+				ofcb->nb_source_symbol_ready++;
+			}
+			else
+			{
+				ofcb->nb_repair_symbol_ready++;
+			}
 		}
 	}
 	OF_EXIT_FUNCTION
